@@ -22,6 +22,16 @@ func init() {
 					}
 				}
 			}
+			// directory-handle histories interleaved with namespace changes
+			hist := int64(4)
+			if tier == "thorough" {
+				hist = 5
+			}
+			for kind := int64(0); kind <= 4; kind++ {
+				if kind <= 1 || tier == "thorough" {
+					cs = append(cs, mkCase("", "c07", "HDirHist", cfg, kind, hist))
+				}
+			}
 			maxN := int64(2)
 			if tier == "thorough" {
 				maxN = 3
@@ -45,9 +55,9 @@ func init() {
 			return []group{{Tags: "", Pkgs: []string{"c07"}, Cases: cs}, {Tags: "", Pkgs: []string{"c06"}, Cases: sched}}
 		},
 		Reach:       []string{"vfs-call", "file-call", "idm-call", "concurrent"},
-		Explanation: "Bounded symbolic execution of every exported VFS method (43), File method (17) and MemIdm method (10) of MemFS, OrefaFS, RoFS, BasePathFS and FailFS with adversarial operands (root, directory and descendant, identical source and destination, empty, relative, unclean, missing, below-a-file, symlink) and fully symbolic integers (flags, modes, uid/gid, sizes, offsets, whence, counts); assertion: the call returns without panic; a single-thread deadlock (re-locking a held mutex) and a path exceeding the instruction budget are reported by the engine; probe calls after each call detect locks left held. (b) Schedules: the two-goroutine programs of the C06 harness (pairs of namespace calls on one shared tree) under every interleaving at lock granularity within the pre-emption bound: a state in which every live goroutine waits for a lock is reported as a deadlock.",
+		Explanation: "Bounded symbolic execution of every exported VFS method (43), File method (17) and MemIdm method (10) of MemFS, OrefaFS, RoFS, BasePathFS and FailFS with adversarial operands (root, directory and descendant, identical source and destination, empty, relative, unclean, missing, below-a-file, symlink) and fully symbolic integers (flags, modes, uid/gid, sizes, offsets, whence, counts); assertion: the call returns without panic; a single-thread deadlock (re-locking a held mutex) and a path exceeding the instruction budget are reported by the engine; probe calls after each call detect locks left held. Directory handles additionally go through bounded histories of ReadDir/Readdirnames with symbolic counts interleaved with calls that add or remove entries of the open directory. (b) Schedules: the two-goroutine programs of the C06 harness (pairs of namespace calls on one shared tree) under every interleaving at lock granularity within the pre-emption bound: a state in which every live goroutine waits for a lock is reported as a deadlock.",
 		Bounds: func(tier string) map[string]any {
-			return map[string]any{"calls_per_history": "1 call (+ optional Seek before File methods) + probe calls", "operand_universe": 14, "handle_states": 7, "buffer_lengths": "0..2", "idm_name_length": map[string]int{"quick": 2, "thorough": 3}[tier], "instruction_budget": 400000,
+			return map[string]any{"calls_per_history": "1 call (+ optional Seek before File methods) + probe calls; directory handles: histories of " + map[string]string{"quick": "4", "thorough": "5"}[tier] + " steps from {ReadDir(n), Readdirnames(n), add entries, remove entries}, n in -1..3", "operand_universe": 14, "handle_states": 7, "buffer_lengths": "0..2", "idm_name_length": map[string]int{"quick": 2, "thorough": 3}[tier], "instruction_budget": 400000,
 				"outside": "longer histories; allocations above 64 elements with symbolic size (CUT); concurrent schedules (C06/C08 harnesses)"}
 		},
 		Assumptions: []string{"os.nextRandom stub: one decimal digit in {0,1}"},
